@@ -118,6 +118,13 @@ func (d *Disk) FailBatch(n int) {
 	d.mu.Unlock()
 }
 
+// Disarm cancels every armed write failure that has not fired yet.
+func (d *Disk) Disarm() {
+	d.mu.Lock()
+	d.failAt = map[int]bool{}
+	d.mu.Unlock()
+}
+
 func (d *Disk) enter(kind string) (fenced bool, err error) {
 	d.mu.Lock()
 	d.attempt++
